@@ -317,7 +317,8 @@ def build_decl(rng, values, shuffle, renames):
         val = values[si]
         legal_implicit = (prev is None and val == 0) or (prev is not None and val == prev + 1)
         explicit = not (legal_implicit and rng.chance(3, 5))
-        variants.append({"ident": "V%d" % pos, "value": val, "explicit": explicit, "name": None})
+        variants.append({"ident": "V%d" % pos, "value": val, "explicit": explicit, "name": None,
+                         "spell": rng.below(12), "doc": rng.chance(1, 15)})
         prev = val
     if renames:
         for v in variants:
@@ -392,6 +393,29 @@ def config_attr_lines(rng, c):
     return lines
 
 
+def spell_literal(value, kind, r):
+    """the discriminant as a Rust literal: decimal mostly; hex / octal / binary, digit separators and type
+    suffixes now and then (all spellings rustc and the derive accept)"""
+    neg = value < 0
+    m = -value if neg else value
+    if kind == 0:
+        lit = "0x%x" % m
+    elif kind == 1:
+        lit = "0x%X" % m
+    elif kind == 2:
+        lit = "0o%o" % m
+    elif kind == 3 and m < (1 << 24):
+        lit = "0b" + bin(m)[2:]
+    elif kind == 4 and m >= 1000:
+        d = str(m)
+        lit = d[:-3] + "_" + d[-3:]
+    elif kind == 5:
+        lit = "%d%s" % (m, r)
+    else:
+        lit = str(m)
+    return ("-" + lit) if neg else lit
+
+
 def rust_str(s):
     out = ['"']
     for ch in s:
@@ -446,8 +470,11 @@ def render_module(name, r, variants, attr_lines, c, tags, ord_reversed=False):
     for v in variants:
         if v["name"] is not None:
             A("    #[enum_tools(rename = %s)]" % rust_str(v["name"]))
+        if v.get("doc"):
+            A("    /// a documented variant")
+            A("    #[allow(dead_code)]")
         if v["explicit"]:
-            A("    %s = %d," % (v["ident"], v["value"]))
+            A("    %s = %s," % (v["ident"], spell_literal(v["value"], v.get("spell", 9), r)))
         else:
             A("    %s," % v["ident"])
     A("}")
